@@ -15,6 +15,10 @@ CHECKS = {
          "bounded-exhaustive enumeration of atom sequences and edit balls on the real lexers with tiling/aliasing/re-lex oracles after every Next",
          "For every enumerated input and every token position: the token is input[offset-len:offset] by pointer identity and equals a pristine copy modulo the two documented rewrites; tokens strictly ordered, non-overlapping, non-empty; css/js tokens tile the consumed bytes; html/xml gaps are whitespace before a tag closer; Text/AttrKey/AttrVal lie inside the token; append(token) cannot write into the input; each css/js token re-lexes to itself; the set of bytes altered in place is exactly the documented one. Exhaustive within the bounds.",
          "Bounds per alphabet in evidence (css 4 atoms full alphabet, html/js 3-4, xml 4; one more in thorough); JS restricted to valid UTF-8 as the property says; template middle/tail re-lexed after the prefix `${."),
+ "C05": ("exploration",
+         "bounded-exhaustive enumeration of accepted programs (atom sequences, edit balls, seed pairs, a literal/indentation family) x Options through the real parse -> print -> parse -> print loop with tree comparison",
+         "For every input js.Parse accepts among: all valid-UTF-8 strings up to 4 (5) atoms over the JS core alphabet and 2 (3) over the full one, all single-edit neighbours of ~150 seed programs, ordered pairs of seeds joined by newline/semicolon/space, and a family of 13 literals with line breaks or escapes x 11 syntactic positions x 8 block wrappers x nesting depth 0..3 (indentation 0..12) - under all four Options - the printed text must parse, print identically again, yield the same String() tree after removing GroupExpr nodes from both trees, and contain every string/template/regexp/numeric literal, kept comment and directive byte for byte.",
+         "GroupExpr removal is a reflection rewrite of interface-typed fields; literal bytes come from the first tree's nodes, which alias the source."),
  "C06": ("model_checking",
          "exhaustive enumeration of token-spelling pairs/triples x separators x template/brace wrappers and of all short strings, each lexed by the real js.Lexer and by an independent ECMA-262 lexical-grammar reference lexer, traces compared token by token",
          "A vocabulary of ~250 spellings (every reserved/contextual word, every punctuator, identifiers with Unicode/escapes, private names, all numeric literal forms, strings with all escapes and line continuations, templates with nesting, every comment, whitespace and line-terminator kind, regexp literals) is combined exhaustively: all ordered pairs x 7 separators, pairs inside template/brace wrappers (nesting depth up to 3), all triples over a 60-spelling core x separators; plus all strings up to 3 atoms over a 107-atom alphabet (4-5 over the core) and edit balls around the JS seeds. Where the reference lexer accepts the input, js.Lexer must return exactly its (type,text) list, with RegExp() called where the generator placed a regexp literal; canonical spelling of every keyword/operator/punctuator token and the Keywords table are checked entry by entry.",
